@@ -127,6 +127,8 @@ func copyDeep(v Val) Val {
 				nc.V = rec(x.C.V)
 			}
 			return &PtrV{C: nc, Path: x.Path, T: x.T}
+		case *LazyV:
+			return &LazyV{T: x.T, Nm: x.Nm}
 		case *CoinsV:
 			c := &CoinsV{Sym: x.Sym}
 			for _, p := range x.Plus {
@@ -360,6 +362,9 @@ func init() {
 		return &CoinsV{Plus: []Val{&scaledCoins{v, m}}}
 	}, CS("MulInt"))
 	reg(func(c *Call) Val {
+		return &CoinsV{Plus: []Val{&minCoins{c.Ex.asCoins(c.Args[0]), c.Ex.asCoins(c.Args[1])}}}
+	}, CS("Min"))
+	reg(func(c *Call) Val {
 		v := c.Ex.asCoins(c.Args[0])
 		d := t(c, 1)
 		a := c.Ex.amtOf(v, d)
@@ -474,6 +479,9 @@ func init() {
 	reg(func(c *Call) Val { return smt.App("durfloat", smt.Obj, t(c, 0)) }, "(time.Duration).Seconds", "(time.Duration).Hours", "(time.Duration).Minutes")
 	reg(func(c *Call) Val { return smt.TDiv(t(c, 0), smt.IntC(1000000)) }, "(time.Duration).Milliseconds")
 }
+
+// minCoins is the pointwise minimum (Coins.Min; amounts of valid coins are non-negative).
+type minCoins struct{ A, B Val }
 
 // scaledCoins is coins * integer (Coins.MulInt).
 type scaledCoins struct {
